@@ -33,7 +33,26 @@
 //
 // a Read started by rdb that has returned is reported as ` rdone:<rid>:<k>:<ok|eof|E:…>` at the end of the result of the
 // operation after which it was found finished.
-//	cupd <now>                               => <v>            (MAX_DATA step of Conn.sendPackets)
+//	cupd <now>                               => <v>            (MAX_DATA step of Conn.sendPackets, replayed by the hook)
+//
+// Round 5: the connection comes from the REAL constructors (newConnection / newClientConnection /
+// newUClientConnection), traced (qlog) or not — a trailing `t` on the init line; init / init0 answer
+// `ok adv=<maxData>,<bidiLocal>,<bidiRemote>,<uni>` = the transport parameters handed to the TLS stack.
+//	pkt <now> ; <f> ; <f> …                  => ok|E:… gone=<i,j|->   (ONE 1-RTT packet with these frames through the real
+//	     handleShortHeaderPacket → handleFrames → handleFrame; f = frame … | rst … | smax … | cmax … | ping | sdb <rid> | db | stop <sid>;
+//	     gone= lists the frames whose receive stream had already been deleted from the streams map)
+//	send <maxLen> <now>                      => like pack          (the real Conn.sendPackets: MAX_DATA step, then the packer
+//	     stand-in asks the real framer for one payload)
+//	pkt0 <now> ; <f> …                       => like pkt           (a server receives the frames in a 0-RTT packet: the real
+//	     handleLongHeaderPacket → handleUnpackedLongHeaderPacket → handleFrames)
+//	rdl <rid> <0|1> | wdl <sid> <0|1>        => ok               (Set{Read,Write}Deadline: 1 = a time in the past — a parked or later
+//	     Read / Write returns with what it did so far and a deadline error —, 0 = no deadline)
+//	poison <n>                               => ok               (n dirty STREAM frames are put into wire's frame pool)
+//	init0 <crw> <cmaxrw> <srw> <smaxrw> <rMaxData> <rBidiLocal> <rBidiRemote> <rUni> [t]   => ok adv=…
+//	     (a client resuming a session: the real restoreTransportParameters with the REMEMBERED parameters; 0-RTT data)
+//	reject <now>                             => ok | E:other     (0-RTT rejected: the real dropEncryptionLevel(0-RTT))
+//	params <pMaxData> <pBidiLocal> <pBidiRemote> <pUni>   => ok | E:other   (the server's transport parameters arrive: real
+//	     handleTransportParameters + applyTransportParameters; after a rejection also the real NextConnection)
 //
 // every result is followed by ` | c=<connection controller dump>`.
 package flowcall
@@ -49,6 +68,7 @@ import (
 	"strings"
 	"testing"
 	"testing/synctest"
+	"time"
 
 	quic "github.com/refraction-networking/uquic"
 	"github.com/refraction-networking/uquic/internal/ackhandler"
@@ -70,6 +90,7 @@ type sendSt struct {
 	closed    bool
 	cancelled bool // CancelWrite was called
 	wdone     chan int
+	wdlPast   bool // a write deadline in the past is set
 }
 
 type recvSt struct {
@@ -84,6 +105,7 @@ type recvSt struct {
 	reset     bool
 	dead      bool // EOF or error was returned
 	reading   bool // a Read goroutine (rdb) is running
+	rdlPast   bool // a read deadline in the past is set
 	rdone     chan rdResult
 }
 
@@ -116,6 +138,14 @@ type runner struct {
 	style   int
 	errored bool
 	dead    int
+
+	zero     bool // a client in its 0-RTT phase (restored parameters; the server's have not arrived yet)
+	rejected bool // 0-RTT was rejected
+	restored [4]int64
+	gen0     int // send streams with index < gen0 were discarded by a 0-RTT rejection
+	queue    []string // scripted continuation of a scenario: emitted before anything else is drawn
+	saw1RTT  bool // a 1-RTT packet was handled: 0-RTT packets (higher packet numbers) are a protocol violation from now on
+	rgen0    int // the same for receive streams (their ids are used again by the streams opened afterwards)
 }
 
 func newRunner(r *vh.Rand) vh.Runner {
@@ -151,6 +181,12 @@ func (rn *runner) GenOp(r *vh.Rand, i int) string {
 		if r.Chance(20) {
 			pmd = 0
 		}
+		tr := []string{"", " t"}[r.Pick(50, 50)]
+		if r.Chance(12) {
+			// a client that resumes a session and sends 0-RTT data under the remembered limits
+			return fmt.Sprintf("init0 %d %d %d %d %d %d %d %d%s", crw, crw*int64(1+r.Intn(4)), srw, srw*int64(1+r.Intn(4)),
+				max(pmd, 1), pl, pr, pu, tr)
+		}
 		if r.Chance(30) {
 			// a spec-driven client: what is advertised comes from the QUICSpec, independently of the Config
 			a := [4]int64{rn.win(r) * int64(1+r.Intn(3)), rn.win(r), rn.win(r), rn.win(r)}
@@ -164,11 +200,11 @@ func (rn *runner) GenOp(r *vh.Rand, i int) string {
 					}
 				}
 			}
-			return fmt.Sprintf("uinit %s %d %d %d %d %d %d %d %d %d %d %d %d", []string{"ff", "ch"}[r.Pick(70, 30)], crw, crw*int64(1+r.Intn(4)),
-				srw, srw*int64(1+r.Intn(4)), a[0], a[1], a[2], a[3], pmd, pl, pr, pu)
+			return fmt.Sprintf("uinit %s %d %d %d %d %d %d %d %d %d %d %d %d%s", []string{"ff", "ch"}[r.Pick(70, 30)], crw, crw*int64(1+r.Intn(4)),
+				srw, srw*int64(1+r.Intn(4)), a[0], a[1], a[2], a[3], pmd, pl, pr, pu, tr)
 		}
-		return fmt.Sprintf("init %s %d %d %d %d %d %d %d %d", []string{"c", "s"}[r.Intn(2)], crw, crw*int64(1+r.Intn(4)),
-			srw, srw*int64(1+r.Intn(4)), pmd, pl, pr, pu)
+		return fmt.Sprintf("init %s %d %d %d %d %d %d %d %d%s", []string{"c", "s"}[r.Intn(2)], crw, crw*int64(1+r.Intn(4)),
+			srw, srw*int64(1+r.Intn(4)), pmd, pl, pr, pu, tr)
 	}
 	if rn.conn == nil {
 		return ""
@@ -180,23 +216,59 @@ func (rn *runner) GenOp(r *vh.Rand, i int) string {
 		rn.dead--
 	}
 	rn.now += r.Range(0, 30_000_000)
+	if len(rn.queue) > 0 {
+		op := strings.ReplaceAll(rn.queue[0], "NOW", strconv.FormatInt(rn.now, 10))
+		rn.queue = rn.queue[1:]
+		return op
+	}
+	if rn.zero {
+		return rn.genZero(r)
+	}
+	if r.Chance(2) {
+		return fmt.Sprintf("poison %d", 1+r.Intn(4))
+	}
+	if len(rn.snd)-rn.gen0 < 1 {
+		return "open " + kinds[r.Pick(40, 20, 40, 0)]
+	}
 	if len(rn.snd) < 1 {
 		return "open " + kinds[r.Pick(40, 20, 40, 0)]
 	}
-	if len(rn.rcv) < 1 {
+	if len(rn.rcv)-rn.rgen0 < 1 {
 		return "open " + kinds[r.Pick(35, 0, 35, 30)]
 	}
 	if len(rn.snd)+len(rn.rcv) < 10 && r.Chance(7) {
 		return "open " + kinds[r.Intn(4)]
 	}
-	si := r.Intn(len(rn.snd))
+	si := rn.pickSend(r)
 	ss := rn.snd[si]
-	ri := r.Intn(len(rn.rcv))
+	ri := rn.pickRecv(r)
 	rs := rn.rcv[ri]
-	switch r.Pick(14, 2, 7, 5, 22, 3, 2, 20, 4, 16, 2, 7, 3, 2, 5, 6) {
+	switch r.Pick(14, 2, 7, 5, 16, 3, 2, 16, 4, 16, 2, 7, 3, 2, 5, 6, 12, 7, 3) {
+	case 18: // deadlines: on a stream with a parked Read / Write if there is one; cleared again later
+		if r.Bool() {
+			for i := rn.rgen0; i < len(rn.rcv); i++ {
+				if (rn.rcv[i].reading || rn.rcv[i].rdlPast) && r.Chance(70) {
+					ri, rs = i, rn.rcv[i]
+				}
+			}
+			return fmt.Sprintf("rdl %d %d", ri, b2i(!rs.rdlPast))
+		}
+		for i := rn.gen0; i < len(rn.snd); i++ {
+			if (rn.snd[i].writing || rn.snd[i].wdlPast) && r.Chance(70) {
+				si, ss = i, rn.snd[i]
+			}
+		}
+		return fmt.Sprintf("wdl %d %d", si, b2i(!ss.wdlPast))
+	case 16:
+		if !rn.client && !rn.saw1RTT && r.Chance(75) {
+			return "pkt0" + rn.genPkt(r)[3:]
+		}
+		return rn.genPkt(r)
+	case 17:
+		return fmt.Sprintf("send %d %d", []int64{r.Range(1, 200), r.Range(200, 1300), r.Range(1300, 1452)}[r.Pick(20, 40, 40)], rn.now)
 	case 14: // a Read in its own goroutine, preferably on a stream where it has to wait
 		for try := 0; try < 4 && (rs.reading || rs.readable()); try++ {
-			ri = r.Intn(len(rn.rcv))
+			ri = rn.pickRecv(r)
 			rs = rn.rcv[ri]
 		}
 		return fmt.Sprintf("rdb %d %d", ri, []int64{r.Range(1, 100), r.Range(100, 2000), 100_000}[r.Intn(3)])
@@ -205,6 +277,16 @@ func (rn *runner) GenOp(r *vh.Rand, i int) string {
 	case 12:
 		return fmt.Sprintf("rb %d", si)
 	case 13:
+		if !ss.closed && !ss.writing && r.Chance(50) {
+			// a reset with a reliable size that covers data still blocked by flow control: more is written than the
+			// windows allow, all of it is marked reliable, the stream is reset, and packets are composed before and
+			// after the limits move
+			sw := int64(rn.conn.SendWindowSize())
+			rn.queue = []string{fmt.Sprintf("rb %d", si), fmt.Sprintf("cw %d", si), "pack 1200 NOW", "pack 1300 NOW",
+				[]string{fmt.Sprintf("smax %d %d", si, ss.newEnd+sw+r.Range(1, 2000)), fmt.Sprintf("cmax %d", r.Range(1, 100000))}[r.Intn(2)],
+				"send 1400 NOW"}
+			return fmt.Sprintf("w %d %d", si, sw+r.Range(1, 3000))
+		}
 		return fmt.Sprintf("cw %d", si)
 	case 0: // write
 		var n int64
@@ -397,18 +479,219 @@ func (rn *runner) GenOp(r *vh.Rand, i int) string {
 	}
 }
 
+func (rn *runner) pickRecv(r *vh.Rand) int { return rn.rgen0 + r.Intn(len(rn.rcv)-rn.rgen0) }
+
+// pickSend prefers send streams that survived a 0-RTT rejection.
+func (rn *runner) pickSend(r *vh.Rand) int {
+	if rn.gen0 < len(rn.snd) && !r.Chance(5) {
+		return rn.gen0 + r.Intn(len(rn.snd)-rn.gen0)
+	}
+	return r.Intn(len(rn.snd))
+}
+
+// genZero: the 0-RTT phase of a resuming client — only the sending side is active; then the server either
+// accepts (its parameters are at least the remembered ones) or rejects 0-RTT (anything may follow).
+func (rn *runner) genZero(r *vh.Rand) string {
+	if len(rn.snd) < 1 {
+		return "open " + kinds[r.Pick(70, 30, 0, 0)]
+	}
+	if !rn.rejected && r.Chance(8) {
+		return fmt.Sprintf("reject %d", rn.now)
+	}
+	if r.Chance(map[bool]int{false: 6, true: 30}[rn.rejected]) {
+		p := rn.restored
+		if rn.rejected {
+			// after a rejection the new limits are unrelated to the remembered ones: often smaller
+			for i := range p {
+				switch r.Pick(40, 20, 40) {
+				case 0:
+					p[i] = r.Range(0, max(p[i], 1))
+				case 1:
+					p[i] = rn.win(r)
+				}
+			}
+		} else {
+			for i := range p {
+				p[i] += []int64{0, r.Range(1, 3000)}[r.Intn(2)]
+			}
+		}
+		return fmt.Sprintf("params %d %d %d %d", p[0], p[1], p[2], p[3])
+	}
+	si := r.Intn(len(rn.snd))
+	switch r.Pick(10, 30, 25, 10, 4, 4, 4, 5, 8) {
+	case 0:
+		return "open " + kinds[r.Pick(70, 30, 0, 0)]
+	case 1:
+		return fmt.Sprintf("w %d %d", si, []int64{r.Range(1, 400), r.Range(400, 1400), r.Range(1400, 9000)}[r.Pick(50, 30, 20)])
+	case 2:
+		return fmt.Sprintf("pack %d %d", []int64{r.Range(1, 200), r.Range(200, 1300), r.Range(1300, 1452)}[r.Pick(25, 50, 25)], rn.now)
+	case 3:
+		return fmt.Sprintf("send %d %d", r.Range(1200, 1452), rn.now)
+	case 4:
+		return fmt.Sprintf("close %d", si)
+	case 5:
+		return fmt.Sprintf("cw %d", si)
+	case 6:
+		return fmt.Sprintf("rb %d", si)
+	case 7:
+		return fmt.Sprintf("poison %d", 1+r.Intn(4))
+	default:
+		if len(rn.out) == 0 {
+			return fmt.Sprintf("pack 1200 %d", rn.now)
+		}
+		return fmt.Sprintf("%s %d", []string{"lost", "acked"}[r.Intn(2)], r.Intn(len(rn.out)))
+	}
+}
+
+// genPkt: ONE packet with 1..5 frames for the real handleFrames: STREAM frames that stay within the limits (new data on
+// distinct streams sharing what is left of the connection window, old data anywhere), RESET_STREAM, MAX_STREAM_DATA,
+// MAX_DATA, PING, *_BLOCKED — and, in 22% of the packets, at a random position ONE frame that is a single byte beyond its
+// stream's or the connection's limit (or contradicts a final size), followed by whatever comes next.
+func (rn *runner) genPkt(r *vh.Rand) string {
+	n := 1 + r.Pick(20, 30, 25, 15, 10)
+	offendAt := -1
+	if r.Chance(22) {
+		offendAt = r.Intn(n)
+	}
+	used := map[int]bool{}
+	c := flowcontrol.VerifDump(rn.conn)
+	budget := field(c, 5) - field(c, 4) // what is left of the connection window
+	var subs []string
+	fresh := func() int { // a receive stream not touched by this packet yet, preferably still open
+		ri := rn.pickRecv(r)
+		for try := 0; try < 6 && (used[ri] || rn.rcv[ri].final >= 0 || rn.rcv[ri].cancelled); try++ {
+			ri = rn.pickRecv(r)
+		}
+		return ri
+	}
+	oldData := func(ri int) string {
+		hr, _, _ := rn.recvRoom(ri)
+		ln := r.Range(0, min(hr, 800))
+		return fmt.Sprintf("frame %d %d %d 0 %d", ri, r.Range(0, hr-ln), ln, rn.now)
+	}
+	for i := 0; i < n; i++ {
+		if i == offendAt {
+			ri := fresh()
+			rs := rn.rcv[ri]
+			hr, lim, _ := rn.recvRoom(ri)
+			if used[ri] || rs.cancelled {
+				subs = append(subs, "ping")
+				continue
+			}
+			used[ri] = true
+			var off, ln int64
+			switch {
+			case rs.final >= 0: // beyond / contradicting the final size
+				off, ln = rs.final+r.Range(0, 2), r.Range(1, 10)
+			case r.Chance(60) || lim-hr <= budget: // one byte beyond the stream limit
+				off, ln = hr, lim-hr+1
+				if ln > 1400 {
+					off, ln = lim-100, 101
+				}
+			default: // one byte beyond the connection limit
+				off, ln = hr, budget+1
+				if ln > 1400 {
+					off, ln = hr+budget-100, 101
+				}
+			}
+			if r.Chance(15) {
+				subs = append(subs, fmt.Sprintf("rst %d %d 0 %d", ri, off+ln, rn.now))
+			} else {
+				subs = append(subs, fmt.Sprintf("frame %d %d %d %d %d", ri, max(off, 0), ln, r.Pick(85, 15), rn.now))
+			}
+			continue
+		}
+		switch r.Pick(50, 8, 12, 8, 10, 6, 6, 3) {
+		case 7: // STOP_SENDING: the send side answers with RESET_STREAM (final size = what was sent)
+			subs = append(subs, fmt.Sprintf("stop %d", rn.pickSend(r)))
+		case 0: // STREAM
+			ri := fresh()
+			rs := rn.rcv[ri]
+			if used[ri] || rs.final >= 0 || rs.cancelled {
+				if rs.cancelled && used[ri] {
+					subs = append(subs, "ping")
+				} else {
+					used[ri] = true
+					subs = append(subs, oldData(ri))
+				}
+				continue
+			}
+			used[ri] = true
+			hr, lim, _ := rn.recvRoom(ri)
+			room := max(min(lim-hr, budget), 0)
+			var off, ln int64
+			switch r.Pick(60, 20, 10, 10) {
+			case 0: // in order
+				off, ln = hr, min(r.Range(1, 1200), room)
+			case 1: // exactly up to the limit
+				ln = min(room, 1400)
+				off = hr + room - ln
+			case 2: // a gap
+				off = hr + r.Range(1, 50)
+				ln = r.Range(1, 200)
+				if off+ln-hr > room {
+					off, ln = hr, min(room, 100)
+				}
+			default:
+				subs = append(subs, oldData(ri))
+				continue
+			}
+			fin := 0
+			if r.Chance(8) {
+				fin = 1
+			}
+			budget -= max(off+ln-hr, 0)
+			subs = append(subs, fmt.Sprintf("frame %d %d %d %d %d", ri, off, ln, fin, rn.now))
+		case 1: // RESET_STREAM / RESET_STREAM_AT within the limits
+			ri := fresh()
+			rs := rn.rcv[ri]
+			if used[ri] {
+				subs = append(subs, "ping")
+				continue
+			}
+			used[ri] = true
+			hr, lim, _ := rn.recvRoom(ri)
+			fs := hr + r.Range(0, max(min(lim-hr, budget, 500), 0))
+			if rs.final >= 0 {
+				fs = rs.final
+			}
+			budget -= max(fs-hr, 0)
+			rel := []int64{0, 0, rs.readPos, r.Range(0, fs), fs}[r.Intn(5)]
+			subs = append(subs, fmt.Sprintf("rst %d %d %d %d", ri, fs, min(rel, fs), rn.now))
+		case 2: // MAX_STREAM_DATA
+			si := rn.pickSend(r)
+			ss := rn.snd[si]
+			cur := field(quic.VerifFCSendDump(ss.s), 1)
+			subs = append(subs, fmt.Sprintf("smax %d %d", si, []int64{max(cur, ss.newEnd) + r.Range(1, 3000), cur, r.Range(0, max(cur, 1))}[r.Pick(60, 15, 25)]))
+		case 3: // MAX_DATA
+			var tot int64
+			for _, s := range rn.snd {
+				tot += s.newEnd
+			}
+			subs = append(subs, fmt.Sprintf("cmax %d", []int64{tot + int64(rn.conn.SendWindowSize()) + r.Range(1, 5000), r.Range(0, tot+int64(rn.conn.SendWindowSize())+1)}[r.Pick(65, 35)]))
+		case 4:
+			subs = append(subs, "ping")
+		case 5:
+			subs = append(subs, fmt.Sprintf("sdb %d", rn.pickRecv(r)))
+		default:
+			subs = append(subs, "db")
+		}
+	}
+	return fmt.Sprintf("pkt %d ; %s", rn.now, strings.Join(subs, " ; "))
+}
+
 // genBatch: two or three events handled back to back (one packet carrying several frames, or the application acting
 // between the arrival of a frame and the moment a parked Read / Write gets to run): preferably on a receive stream
 // with a parked Read — the rest of the stream (with FIN) / a reset / CancelRead in every order — or on a send stream
 // with a parked Write — MAX_STREAM_DATA / MAX_DATA / CancelWrite.
 func (rn *runner) genBatch(r *vh.Rand, ri, si int) string {
 	for i, s := range rn.rcv {
-		if s.reading && r.Chance(70) {
+		if i >= rn.rgen0 && s.reading && r.Chance(70) {
 			ri = i
 		}
 	}
 	for i, s := range rn.snd {
-		if s.writing && r.Chance(70) {
+		if i >= rn.gen0 && s.writing && r.Chance(70) {
 			si = i
 		}
 	}
@@ -628,6 +911,17 @@ var debugOps = os.Getenv("FC_DEBUG") != ""
 var batchable = map[string]bool{"frame": true, "rst": true, "cancel": true, "smax": true, "cmax": true, "cw": true}
 
 func (rn *runner) Exec(op string) string {
+	if strings.HasPrefix(op, "pkt ") || strings.HasPrefix(op, "pkt0 ") {
+		if rn.conn == nil || rn.zero || (strings.HasPrefix(op, "pkt0 ") && (rn.client || rn.saw1RTT)) {
+			return "skip"
+		}
+		res := rn.execPkt(strings.Split(op, " ; "))
+		if res == "skip" {
+			return res
+		}
+		rn.settle()
+		return res + rn.takeDone() + rn.suffix()
+	}
 	if strings.HasPrefix(op, "batch ") {
 		if rn.conn == nil {
 			return "skip"
@@ -666,7 +960,15 @@ func (rn *runner) exec1(op string) string {
 		}
 		return 0
 	}
-	if f[0] == "init" {
+	traced := len(f) > 0 && f[len(f)-1] == "t"
+	if traced {
+		f = f[:len(f)-1]
+	}
+	if f[0] == "init" || f[0] == "init0" {
+		zero := f[0] == "init0"
+		if zero {
+			f = append([]string{"init", "c"}, f[1:]...)
+		}
 		if rn.conn != nil || len(f) < 10 {
 			return "skip"
 		}
@@ -676,12 +978,20 @@ func (rn *runner) exec1(op string) string {
 			}
 		}
 		rn.client = f[1] == "c"
-		rn.h = quic.VerifFCNewConn(rn.client, &quic.Config{
+		kind := "server"
+		if rn.client {
+			kind = "client"
+		}
+		h, err := quic.VerifFCNew(kind, &quic.Config{
 			InitialConnectionReceiveWindow: uint64(arg(2)), MaxConnectionReceiveWindow: uint64(arg(3)),
 			InitialStreamReceiveWindow: uint64(arg(4)), MaxStreamReceiveWindow: uint64(arg(5)),
 			EnableStreamResetPartialDelivery: true,
-		})
-		err := rn.h.PeerParameters(&wire.TransportParameters{
+		}, nil, traced)
+		if err != nil {
+			return "E:other"
+		}
+		rn.h = h
+		pp := &wire.TransportParameters{
 			InitialMaxData:                 protocol.ByteCount(arg(6)),
 			InitialMaxStreamDataBidiLocal:  protocol.ByteCount(arg(7)),
 			InitialMaxStreamDataBidiRemote: protocol.ByteCount(arg(8)),
@@ -689,12 +999,23 @@ func (rn *runner) exec1(op string) string {
 			MaxBidiStreamNum:               1000,
 			MaxUniStreamNum:                1000,
 			EnableResetStreamAt:            true,
-		})
+		}
+		if zero {
+			rn.zero = true
+			rn.restored = [4]int64{arg(6), arg(7), arg(8), arg(9)}
+			rn.h.RestoreParameters(pp)
+		} else {
+			err = rn.h.PeerParameters(pp)
+		}
 		rn.conn = rn.h.ConnFC()
 		if err != nil {
 			return "E:other" + rn.suffix()
 		}
-		return "ok" + rn.suffix()
+		a0, a1, a2, a3, ok := rn.h.Advertised()
+		if !ok {
+			return "E:other" + rn.suffix()
+		}
+		return fmt.Sprintf("ok adv=%d,%d,%d,%d", a0, a1, a2, a3) + rn.suffix()
 	}
 	if f[0] == "uinit" {
 		if rn.conn != nil || len(f) < 14 {
@@ -758,11 +1079,11 @@ func (rn *runner) exec1(op string) string {
 				adv[3] = int64(x)
 			}
 		}
-		h, err := quic.VerifFCNewUConn(&spec, &quic.Config{
+		h, err := quic.VerifFCNew("uclient", &quic.Config{
 			InitialConnectionReceiveWindow: uint64(arg(2)), MaxConnectionReceiveWindow: uint64(arg(3)),
 			InitialStreamReceiveWindow: uint64(arg(4)), MaxStreamReceiveWindow: uint64(arg(5)),
 			EnableStreamResetPartialDelivery: true,
-		})
+		}, &spec, traced)
 		if err != nil {
 			return "E:other"
 		}
@@ -793,7 +1114,7 @@ func (rn *runner) exec1(op string) string {
 		return nil
 	}
 	ridx := func() *recvSt {
-		if len(f) >= 2 && arg(1) >= 0 && int(arg(1)) < len(rn.rcv) {
+		if len(f) >= 2 && arg(1) >= int64(rn.rgen0) && int(arg(1)) < len(rn.rcv) {
 			return rn.rcv[arg(1)]
 		}
 		return nil
@@ -854,21 +1175,23 @@ func (rn *runner) exec1(op string) string {
 		if s == nil || s.writing || s.closed || n <= 0 || n > 1<<20 {
 			return "skip"
 		}
-		pending := s.written - s.newEnd
-		if pending+n <= int64(protocol.MaxPacketBufferSize) {
-			k, err := s.s.Write(make([]byte, n))
-			s.written += int64(k)
+		// never call Write on the driver's goroutine: whether it returns at once is the implementation's business
+		s.writing = true
+		s.written += n
+		go func() {
+			k, _ := s.s.Write(make([]byte, n))
+			s.wdone <- k
+		}()
+		synctest.Wait()
+		select {
+		case k := <-s.wdone:
+			s.writing = false
+			s.written -= n - int64(k)
 			res = fmt.Sprintf("n=%d", k)
-			if err != nil {
+			if int64(k) < n {
 				res += " E:other"
 			}
-		} else {
-			s.writing = true
-			s.written += n
-			go func() {
-				k, _ := s.s.Write(make([]byte, n))
-				s.wdone <- k
-			}()
+		default:
 			res = "started"
 		}
 	case "close":
@@ -901,35 +1224,52 @@ func (rn *runner) exec1(op string) string {
 		res = "ok"
 	case "smax":
 		s := sidx()
-		if s == nil {
+		if s == nil || arg(1) < int64(rn.gen0) { // the id of a discarded stream now belongs to another stream
 			return "skip"
 		}
 		res = errClass(rn.h.HandleMaxStreamDataFrame(&wire.MaxStreamDataFrame{StreamID: s.id, MaximumStreamData: protocol.ByteCount(arg(2))}))
 	case "cmax":
 		rn.h.HandleMaxDataFrame(&wire.MaxDataFrame{MaximumData: protocol.ByteCount(arg(1))})
 		res = "ok"
-	case "pack":
+	case "pack", "send":
 		if arg(1) <= 0 {
 			return "skip"
 		}
-		frames, sfs := rn.h.Pack(protocol.ByteCount(arg(1)), monotime.Time(arg(2)))
+		var frames []ackhandler.Frame
+		var sfs []ackhandler.StreamFrame
 		var parts []string
-		for _, sf := range sfs {
-			si, ok := rn.sidx[sf.Frame.StreamID]
+		if f[0] == "send" {
+			var err error
+			frames, sfs, err = rn.h.SendPackets(protocol.ByteCount(arg(1)), monotime.Time(arg(2)))
+			if err != nil {
+				parts = append(parts, "X:send-error")
+			}
+		} else {
+			frames, sfs = rn.h.Pack(protocol.ByteCount(arg(1)), monotime.Time(arg(2)))
+		}
+		// what the peer sees: every frame is serialised by its real Append and parsed back (as the packer and the
+		// peer's frame parser would); the tokens below are made from the PARSED frames
+		wframes, wsfs, werr := onTheWire(frames, sfs)
+		if werr != "" {
+			parts = append(parts, werr)
+		}
+		for i, sf := range sfs {
+			w := wsfs[i]
+			si, ok := rn.sidx[w.StreamID]
 			if !ok {
-				parts = append(parts, fmt.Sprintf("X:stream-frame-for-unknown-stream:%d", int64(sf.Frame.StreamID)))
+				parts = append(parts, fmt.Sprintf("X:stream-frame-for-unknown-stream:%d", int64(w.StreamID)))
 				continue
 			}
-			end := int64(sf.Frame.Offset) + int64(sf.Frame.DataLen())
+			end := int64(w.Offset) + int64(w.DataLen())
 			if end > rn.snd[si].newEnd {
 				rn.snd[si].newEnd = end
 			}
-			parts = append(parts, fmt.Sprintf("S:%d:%d:%d:%d", si, int64(sf.Frame.Offset), int64(sf.Frame.DataLen()), b2i(sf.Frame.Fin)))
+			parts = append(parts, fmt.Sprintf("S:%d:%d:%d:%d", si, int64(w.Offset), int64(w.DataLen()), b2i(w.Fin)))
 			rn.out = append(rn.out, outFrame{f: sf.Frame, h: sf.Handler, sid: si})
 		}
 		var ctl []string
-		for _, fr := range frames {
-			switch x := fr.Frame.(type) {
+		for _, fr := range wframes {
+			switch x := fr.(type) {
 			case *wire.StreamDataBlockedFrame:
 				ctl = append(ctl, fmt.Sprintf("SB:%d:%d", rn.sidx[x.StreamID], int64(x.MaximumStreamData)))
 			case *wire.DataBlockedFrame:
@@ -1021,11 +1361,24 @@ func (rn *runner) exec1(op string) string {
 			return "skip"
 		}
 		// Read blocks when nothing is readable and the stream is not finished: never call it then
-		if !s.readable() || s.reading {
+		if (!s.readable() && !s.rdlPast) || s.reading {
 			return "skip"
 		}
-		k, err := s.s.Read(make([]byte, n))
-		res = fmt.Sprintf("n=%d %s", k, s.readResult(k, err))
+		// the driver's book-keeping says this Read returns at once; should the implementation disagree (a frame the
+		// driver counted was not delivered), the Read must not hang the driver: it runs in a goroutine like rdb
+		s.reading = true
+		go func() {
+			k, err := s.s.Read(make([]byte, n))
+			s.rdone <- rdResult{k, err}
+		}()
+		synctest.Wait()
+		select {
+		case d := <-s.rdone:
+			s.reading = false
+			res = fmt.Sprintf("n=%d %s", d.k, s.readResult(d.k, d.err))
+		default:
+			res = "started"
+		}
 	case "rdb":
 		s := ridx()
 		n := arg(2)
@@ -1046,12 +1399,278 @@ func (rn *runner) exec1(op string) string {
 		s.s.CancelRead(9)
 		s.cancelled = true
 		res = "ok"
+	case "rdl":
+		s := ridx()
+		if s == nil || len(f) < 3 {
+			return "skip"
+		}
+		s.rdlPast = arg(2) == 1
+		if s.rdlPast {
+			s.s.SetReadDeadline(time.Now().Add(-time.Second))
+		} else {
+			s.s.SetReadDeadline(time.Time{})
+		}
+		res = "ok"
+	case "wdl":
+		s := sidx()
+		if s == nil || len(f) < 3 {
+			return "skip"
+		}
+		s.wdlPast = arg(2) == 1
+		if s.wdlPast {
+			s.s.SetWriteDeadline(time.Now().Add(-time.Second))
+		} else {
+			s.s.SetWriteDeadline(time.Time{})
+		}
+		res = "ok"
+	case "poison":
+		if arg(1) <= 0 || arg(1) > 16 {
+			return "skip"
+		}
+		wire.VerifPoisonPool(int(arg(1)))
+		res = "ok"
+	case "reject":
+		if !rn.zero || rn.rejected {
+			return "skip"
+		}
+		rn.rejected = true
+		err := rn.h.Reject0RTT(monotime.Time(arg(1)))
+		// the 0-RTT packets are dropped without telling the streams; every stream is discarded
+		rn.out = nil
+		rn.gen0, rn.rgen0 = len(rn.snd), len(rn.rcv)
+		for _, s := range rn.snd {
+			s.closed, s.cancelled = true, true
+		}
+		if err != nil {
+			res = "E:other"
+		} else {
+			res = "ok"
+		}
+	case "params":
+		if !rn.zero || len(f) < 5 {
+			return "skip"
+		}
+		rn.zero = false
+		err := rn.h.PeerParameters(&wire.TransportParameters{
+			InitialMaxData:                 protocol.ByteCount(arg(1)),
+			InitialMaxStreamDataBidiLocal:  protocol.ByteCount(arg(2)),
+			InitialMaxStreamDataBidiRemote: protocol.ByteCount(arg(3)),
+			InitialMaxStreamDataUni:        protocol.ByteCount(arg(4)),
+			MaxBidiStreamNum:               1000,
+			MaxUniStreamNum:                1000,
+			EnableResetStreamAt:            true,
+		})
+		if err == nil && rn.rejected {
+			err = rn.h.NextConnection()
+		}
+		if err != nil {
+			res = "E:other"
+		} else {
+			res = "ok"
+		}
 	case "cupd":
 		res = strconv.FormatInt(int64(rn.h.QueueMaxData(monotime.Time(arg(1)))), 10)
 	default:
 		return "skip"
 	}
 	return res
+}
+
+// onTheWire serialises the frames of one payload (control frames first, STREAM frames last, as the packer does) with
+// their real Append methods and parses the bytes back with a frame parser. On any failure the original frame stands in
+// and an X: token says so.
+func onTheWire(frames []ackhandler.Frame, sfs []ackhandler.StreamFrame) ([]wire.Frame, []*wire.StreamFrame, string) {
+	outF := make([]wire.Frame, len(frames))
+	outS := make([]*wire.StreamFrame, len(sfs))
+	for i, f := range frames {
+		outF[i] = f.Frame
+	}
+	for i, f := range sfs {
+		outS[i] = f.Frame
+	}
+	var b []byte
+	var err error
+	for _, f := range frames {
+		if b, err = f.Frame.Append(b, protocol.Version1); err != nil {
+			return outF, outS, "X:frame-not-serialisable"
+		}
+	}
+	for _, f := range sfs {
+		if b, err = f.Frame.Append(b, protocol.Version1); err != nil {
+			return outF, outS, "X:frame-not-serialisable"
+		}
+	}
+	p := wire.NewFrameParser(true, true, true)
+	nf, ns := 0, 0
+	for len(b) > 0 {
+		ft, l, err := p.ParseType(b, protocol.Encryption1RTT)
+		if err != nil {
+			break // PADDING up to the end
+		}
+		b = b[l:]
+		if ft.IsStreamFrameType() {
+			sf, l, err := p.ParseStreamFrame(ft, b, protocol.Version1)
+			if err != nil || ns >= len(outS) {
+				return outF, outS, "X:frame-not-parsable"
+			}
+			b = b[l:]
+			// (a parsed frame may come from the frame pool; it is not put back: the poisoned pool stays poisoned)
+			outS[ns] = sf
+			ns++
+			continue
+		}
+		fr, l, err := p.ParseLessCommonFrame(ft, b, protocol.Version1)
+		if err != nil || nf >= len(outF) {
+			return outF, outS, "X:frame-not-parsable"
+		}
+		b = b[l:]
+		outF[nf] = fr
+		nf++
+	}
+	if nf != len(outF) || ns != len(outS) {
+		return outF, outS, "X:frames-lost-on-the-wire"
+	}
+	return outF, outS, ""
+}
+
+// execPkt: one 1-RTT packet. parts[0] = "pkt <now>", the rest are the frames in order.
+func (rn *runner) execPkt(parts []string) string {
+	hd := strings.Fields(parts[0])
+	if len(hd) < 2 || len(parts) < 2 || len(parts) > 9 {
+		return "skip"
+	}
+	now := vh.Atoi64(hd[1])
+	var payload []byte
+	var gone []string
+	var after []func()
+	var stops []*sendSt
+	seen := map[*recvSt]int{}
+	for i, sub := range parts[1:] {
+		f := strings.Fields(sub)
+		if len(f) == 0 {
+			return "skip"
+		}
+		arg := func(i int) int64 {
+			if i < len(f) {
+				return vh.Atoi64(f[i])
+			}
+			return 0
+		}
+		var rs *recvSt
+		var ss *sendSt
+		if len(f) >= 2 {
+			if arg(1) >= int64(rn.rgen0) && int(arg(1)) < len(rn.rcv) {
+				rs = rn.rcv[arg(1)]
+			}
+			if arg(1) >= int64(rn.gen0) && int(arg(1)) < len(rn.snd) {
+				ss = rn.snd[arg(1)]
+			}
+		}
+		var fr wire.Frame
+		switch f[0] {
+		case "frame":
+			off, ln := arg(2), arg(3)
+			if rs == nil || off < 0 || ln < 0 || ln > 1<<14 {
+				return "skip"
+			}
+			seen[rs]++
+			fin := arg(4) == 1
+			fr = &wire.StreamFrame{StreamID: rs.id, Offset: protocol.ByteCount(off), Data: make([]byte, ln), Fin: fin,
+				DataLenPresent: i+2 < len(parts) || ln%2 == 0}
+			after = append(after, func() {
+				if !rs.cancelled {
+					rs.ivs = addInterval(rs.ivs, off, off+ln)
+				}
+				if fin {
+					rs.final = off + ln
+				}
+			})
+		case "rst":
+			fs, rel := arg(2), arg(3)
+			if rs == nil || fs < 0 || rel < 0 || rel > fs {
+				return "skip"
+			}
+			seen[rs]++
+			fr = &wire.ResetStreamFrame{StreamID: rs.id, FinalSize: protocol.ByteCount(fs), ReliableSize: protocol.ByteCount(rel), ErrorCode: 7}
+			after = append(after, func() {
+				rs.final = fs
+				if !rs.cancelled {
+					if (!rs.reset && rs.reliable == 0) || rel < rs.reliable {
+						rs.reliable = rel
+					}
+					rs.reset = true
+				}
+			})
+		case "smax":
+			if ss == nil || arg(2) < 0 {
+				return "skip"
+			}
+			fr = &wire.MaxStreamDataFrame{StreamID: ss.id, MaximumStreamData: protocol.ByteCount(arg(2))}
+		case "cmax":
+			if len(f) < 2 || arg(1) < 0 {
+				return "skip"
+			}
+			fr = &wire.MaxDataFrame{MaximumData: protocol.ByteCount(arg(1))}
+		case "ping":
+			fr = &wire.PingFrame{}
+		case "stop":
+			if ss == nil {
+				return "skip"
+			}
+			fr = &wire.StopSendingFrame{StreamID: ss.id, ErrorCode: 5}
+			stops = append(stops, ss)
+		case "sdb":
+			if rs == nil {
+				return "skip"
+			}
+			fr = &wire.StreamDataBlockedFrame{StreamID: rs.id, MaximumStreamData: 1}
+		case "db":
+			fr = &wire.DataBlockedFrame{MaximumData: 1}
+		default:
+			return "skip"
+		}
+		if rs != nil && f[0] != "smax" && rn.h.ReceiveStreamGone(rs.id) {
+			gone = append(gone, strconv.Itoa(i))
+		}
+		var err error
+		if payload, err = fr.Append(payload, protocol.Version1); err != nil {
+			return "skip"
+		}
+	}
+	// a read-cancelled stream completes (and is deleted from the streams map) as soon as its final size is known:
+	// whether a second frame for it in the same packet still reaches the stream cannot be told from outside
+	for rs, k := range seen {
+		if k > 1 && rs.cancelled {
+			return "skip"
+		}
+	}
+	for _, ss := range stops { // STOP_SENDING resets the send side (whether the frame is reached or not: be conservative)
+		ss.closed, ss.cancelled = true, true
+	}
+	var processed bool
+	var err error
+	if hd[0] == "pkt0" {
+		processed, err = rn.h.Handle0RTTPacket(payload, monotime.Time(now))
+	} else {
+		rn.saw1RTT = true
+		processed, err = rn.h.HandlePacket(payload, monotime.Time(now))
+	}
+	res := errClass(err)
+	if err == nil && !processed {
+		res = "dropped"
+	}
+	if err == nil {
+		for _, fn := range after {
+			fn()
+		}
+	} else if !rn.errored {
+		rn.errored, rn.dead = true, 3
+	}
+	g := "-"
+	if len(gone) > 0 {
+		g = strings.Join(gone, ",")
+	}
+	return res + " gone=" + g
 }
 
 // readable: a Read would return without waiting
